@@ -1,7 +1,7 @@
 use crate::protocol::binary_codec::{
     BinaryRequest, BinaryResponse, MemcacheBinaryCodec, ResponseMessage,
 };
-use bytes::BytesMut;
+use bytes::{Buf, BytesMut};
 use std::cmp;
 use std::io;
 use std::io::{Error, ErrorKind};
@@ -48,12 +48,17 @@ impl MemcacheBinaryConnection {
                                 0,
                             ],
                         );
-                        let skip = (request.header.body_length) - (self.buffer.len() as u32);
-                        if skip >= self.buffer.len() as u32 {
-                            self.buffer.clear();
+                        // discard the body: the part that is already buffered,
+                        // then the rest straight from the socket
+                        let body = request.header.body_length as usize;
+                        let buffered = self.buffer.len();
+                        let skip = if buffered >= body {
+                            self.buffer.advance(body);
+                            0
                         } else {
-                            self.buffer = self.buffer.split_off(skip as usize);
-                        }
+                            self.buffer.clear();
+                            (body - buffered) as u32
+                        };
                         self.skip_bytes(skip).await?;
                         return Ok(Some(BinaryRequest::ItemTooLarge(request)));
                     }
